@@ -13,7 +13,8 @@ RULE = ("A: TLC model-checks SeqCount.tla for widths 1..4 with and without injec
         "Act_FirstIsZero / Act_Rejects; every transition is executed on real SeqCountProvider / FileSeqCountProvider "
         "objects and a real file (depth-first along real paths), comparing the returned value or error family, the file "
         "content and the in-memory provider's next value. B: histories longer than 2^W calls for W = 14 "
-        "(PusFileSeqCountProvider), 8, 16 and small widths with restarts at random inter-call points and file faults, "
+        "(PusFileSeqCountProvider), 8, 16 and small widths with restarts at random inter-call points, file faults and changes "
+        "of the width through the public max_bit_width setter, "
         "validated by Trace_SeqCount. distinct = distinct (width, pre-state, call) edges + distinct recorded events.")
 
 MISSING = {"m": True}
@@ -201,6 +202,16 @@ def histories(ctx):
             yield e
             if rng.random() < 0.01:
                 yield {"op": "current", "ret": real.call("current"), "file": real.get_file()}
+            if not pus and rng.random() < 0.01:
+                # the public width setter, only while both stored counts fit the new width
+                n = max(1, rng.choice([real.w - 1, real.w + 1, real.w, 2, 8, 3]))
+                cur = real.call("current")
+                if "v" in cur and cur["v"] < 2 ** n and peek(mem) < 2 ** n:
+                    real.ensure_instance()
+                    mem.max_bit_width = n
+                    real.inst.max_bit_width = n
+                    real.w = n
+                    yield {"op": "set_width", "w": n, "ret": "none", "file": real.get_file()}
         real.cleanup()
 
 
